@@ -81,6 +81,13 @@ CHECKS = {
   text="Fragment of C27: solver verdict that parent/delegate ids survive their compact byte encoding for every index (quick: fixed txid; thorough: every txid) and that from_value is total and exact on every byte string up to 37 bytes. Envelope building/parsing is not covered (stated).",
   design_ref="DESIGN.md §3 C27",
   note="Envelope/script code (inscription.rs, envelope.rs, tag.rs) is outside the decided fragment."),
+ "C09": dict(
+  engine="E2-mir2smt",
+  technique="differential symbolic execution: MIR of the real RuneUpdater::index_runes (function text extracted at run time, std containers modelled, table/RPC-facing helpers replaced by stated stubs) against the MIR of a specification reference on the same symbolic transaction; SMT query per path; native replay",
+  category="model_checking",
+  text="Solver verdict that, for every transaction in the listed scenario shapes (any rune ids, balances, edict amounts/outputs, OP_RETURN positions, pointer, open/closed mint, etching with premine, cenotaph), the balances ord stores per output and the amounts it burns are exactly those of a reference written from the specification: edicts in order with capping, zero = all, output == n = every non-OP_RETURN output (even split, remainder first), 0:0 = the etched rune, leftovers to the pointer or first non-OP_RETURN output, OP_RETURN allocations and cenotaphs burn; no zero balance or unknown rune is stored.",
+  design_ref="DESIGN.md §3 C09",
+  note="One-transaction step over a shim RuneUpdater; decipher/mint/etched/unallocated are stubs returning arbitrary scenario values (their own behaviour is C25/C10 or out of reach). <= 3 outputs, <= 2 input runes, <= 2 edicts."),
 }
 
 _IDX = "global invariant over redb tables after arbitrary histories; the audits and the maintenance code run inside redb transactions that cannot be symbolically executed with Kani/CBMC or the MIR engine (only the per-transaction / per-value kernels are decided, under C01, C35)"
@@ -92,8 +99,7 @@ NOT_APPLICABLE = {
  "C17": _IDX,
  "C03": "inscription_updater.rs needs eight redb table handles, BTreeMap/HashSet, sorting and a regex (Inscription::hidden); not encodable within reach of the engines on this image",
  "C06": "curse/reinscription selection lives in inscription_updater.rs (redb tables, BTreeMap) and envelope.rs (bitcoin script iterator: CBMC needs 220-590 s per 3-byte script); not encodable within reach",
- "C08": "rune_updater.rs is HashMap/closure/redb-table code; the supply invariant is a property of whole histories. Only RuneEntry::mintable (C10) and Runestone::decipher (C25) are decided",
- "C09": "the allocation loop in RuneUpdater::index_runes iterates HashMap<RuneId, Lot> and Vec<HashMap<..>> with closures over them; neither Kani (HashMap does not finish) nor the MIR engine (no models for these container shapes, path explosion over balances) reaches it",
+ "C08": "the supply invariant is a property of whole histories over redb tables; the per-transaction conservation it rests on is decided under C09 (allocation == specification reference), RuneEntry::mintable under C10, decipher under C25",
  "C11": "RuneUpdater::etched/tx_commits_to_rune/create_rune_entry read redb tables and call the node RPC for commit transactions; not encodable. Rune::reserved / minimum_at_height are decided under C32/C33",
  "C12": "depends on commit batching, cache flushing and reopen behaviour of redb write transactions; no solver-reachable encoding",
  "C13": "crash points of redb commits and savepoints; durable-storage behaviour cannot be symbolically executed here",
